@@ -53,9 +53,10 @@ PLAN = {
         ],
     },
     "C07": {
-        "packages": ["vnative"],
+        "packages": ["vnative", "vnative-noassert"],
         "engines": [
             {"name": "n-times", "argv": [VNATIVE, "times", "--property", "C07"]},
+            {"name": "n-times-noassert", "profile": "noassert", "argv": [VNATIVE, "times", "--property", "C07"]},
             {"name": "g-arms", "argv": VGEN + ["c08", "--property", "C07", "--only-times"]},
         ],
     },
